@@ -3,4 +3,5 @@ let table : (string * (Model.sexp -> Model.sexp)) list = [
   ("C15", Model.run_C15);
   ("abi", Model.run_abi);
   ("val", Model.run_val);
+  ("ver", Model.run_verify);
 ]
